@@ -199,6 +199,15 @@ def run_history(case):
         elif op["op"] == "read":
             o = observe(path)
             events.append({"ev": "Read", "raised": o["cols"][:1] != [] and o["cols"][0].startswith("<unreadable"), "after": o})
+        elif op["op"] == "rewrite":
+            # what was read back is a table like any other: written to another file (HDF5) it holds the same content
+            from thejoker import JokerSamples
+            p2 = os.path.join(wd, "again.hdf5")
+            try:
+                JokerSamples.read(path).write(p2, overwrite=True)
+                events.append({"ev": "Read", "raised": False, "after": observe(p2), "via": "rewrite"})
+            except Exception as ex:
+                events.append({"ev": "Read", "raised": True, "after": observe(path), "via": "rewrite", "exc": repr(ex)[:200]})
         elif op["op"] == "batch":
             cur = observe(path)
             if cur["absent"] or not cur["ids"] or (cur["cols"] and cur["cols"][0].startswith("<unreadable")):
@@ -267,8 +276,8 @@ def run(ctx, selftest=False):
         base_cols = rnd.choice(colsets[:4])
         sh = {"cols": list(base_cols), "units": [ualt[c][0] for c in base_cols], "meta": {"tref": rnd.choice([0, 5, -1]), "poly": 1, "noff": 0},
               "n": rnd.randint(1, 30)}
-        ops = [{"op": "write", "shape": sh, "ow": rnd.random() < 0.5, "ap": False}, {"op": "read"},
-               {"op": "write", "shape": dict(sh, n=rnd.randint(1, 5)), "ow": rnd.random() < 0.6, "ap": False}, {"op": "read"}]
+        ops = [{"op": "write", "shape": sh, "ow": rnd.random() < 0.5, "ap": False}, {"op": "read"}, {"op": "rewrite"},
+               {"op": "write", "shape": dict(sh, n=rnd.randint(1, 5)), "ow": rnd.random() < 0.6, "ap": False}, {"op": "read"}, {"op": "rewrite"}]
         cases.append({"id": "fits-%d" % j, "ops": ops, "seed": j, "workdir": ctx.workdir, "ext": ".fits",
                       "tscale": ["tcb", "utc", "tt", "tdb"][j % 4]})
     traces = core.pmap(run_history, cases, chunksize=8)
